@@ -15,7 +15,7 @@ import (
 // C03 – any mutation history leaves exactly the abstract graph observable.
 
 var c03U = model.Universe{
-	Graphs:  []string{"g1", "g2"},
+	Graphs:  []string{"g1", "g1b"},
 	VIDs:    []string{"a", "b", "c", "zz"},
 	EIDs:    []string{"e1", "e2", "e3"},
 	VLabels: []string{"P", "Q"},
@@ -36,10 +36,10 @@ type M = map[string]interface{}
 func c03Alphabet(avoid map[string]bool) []model.Op {
 	ops := []model.Op{
 		{Op: "AddGraph", Graph: "g1"},
-		{Op: "AddGraph", Graph: "g2"},
+		{Op: "AddGraph", Graph: "g1b"},
 		{Op: "AddGraph", Graph: "bad name"},
 		{Op: "DeleteGraph", Graph: "g1"},
-		{Op: "DeleteGraph", Graph: "g2"},
+		{Op: "DeleteGraph", Graph: "g1b"},
 		{Op: "AddVertex", Graph: "g1", Elems: []*model.Elem{mv("a", "P", nil)}},
 		{Op: "AddVertex", Graph: "g1", Elems: []*model.Elem{mv("b", "P", M{"x": 1.0})}},
 		{Op: "AddVertex", Graph: "g1", Elems: []*model.Elem{mv("c", "Q", M{"x": 2.0, "y": "t"})}},
@@ -48,7 +48,7 @@ func c03Alphabet(avoid map[string]bool) []model.Op {
 		{Op: "AddVertex", Graph: "g1", Elems: []*model.Elem{mv("a", "", nil)}},
 		{Op: "AddVertex", Graph: "g1", Elems: []*model.Elem{mv("c", "P", M{"_gid": 1.0})}},
 		{Op: "AddVertex", Graph: "g1", Elems: []*model.Elem{mv("c", "P", M{"a b": 1.0})}},
-		{Op: "AddVertex", Graph: "g2", Elems: []*model.Elem{mv("a", "P", M{"x": 2.0})}},
+		{Op: "AddVertex", Graph: "g1b", Elems: []*model.Elem{mv("a", "P", M{"x": 2.0})}},
 		{Op: "AddVertex", Graph: "g3", Elems: []*model.Elem{mv("a", "P", nil)}},
 		{Op: "AddEdge", Graph: "g1", Elems: []*model.Elem{me("e1", "r", "a", "b", nil)}},
 		{Op: "AddEdge", Graph: "g1", Elems: []*model.Elem{me("e1", "r", "a", "b", M{"w": 5.0})}},
@@ -58,18 +58,18 @@ func c03Alphabet(avoid map[string]bool) []model.Op {
 		{Op: "AddEdge", Graph: "g1", Elems: []*model.Elem{me("e3", "s", "c", "a", nil), me("e2", "s", "b", "c", nil)}},
 		{Op: "AddEdge", Graph: "g1", Elems: []*model.Elem{me("e3", "r", "", "a", nil)}},
 		{Op: "AddEdge", Graph: "g1", Elems: []*model.Elem{me("", "r", "a", "b", nil)}},
-		{Op: "AddEdge", Graph: "g2", Elems: []*model.Elem{me("e1", "r", "a", "b", nil)}},
+		{Op: "AddEdge", Graph: "g1b", Elems: []*model.Elem{me("e1", "r", "a", "b", nil)}},
 		{Op: "BulkAdd", Graph: "g1", Elems: []*model.Elem{mv("c", "P", nil), me("e3", "s", "c", "a", nil)}},
 		{Op: "BulkAdd", Graph: "g1", Elems: []*model.Elem{mv("b", "Q", M{"x": 3.0})}},
 		{Op: "BulkAdd", Graph: "g1", Elems: []*model.Elem{mv("c", "Q", M{"x": 4.0}), me("c", "s", "c", "a", nil)}}, // a vertex and an edge with one gid are two elements
 		{Op: "DelVertex", Graph: "g1", ID: "a"},
 		{Op: "DelVertex", Graph: "g1", ID: "b"},
 		{Op: "DelVertex", Graph: "g1", ID: "zz"},
-		{Op: "DelVertex", Graph: "g2", ID: "a"},
+		{Op: "DelVertex", Graph: "g1b", ID: "a"},
 		{Op: "DelEdge", Graph: "g1", ID: "e1"},
 		{Op: "DelEdge", Graph: "g1", ID: "e2"},
 		{Op: "DelEdge", Graph: "g1", ID: "zz"},
-		{Op: "DelEdge", Graph: "g2", ID: "e1"},
+		{Op: "DelEdge", Graph: "g1b", ID: "e1"},
 	}
 	if !avoid["c03-readd-edge-different-shape"] {
 		ops = append(ops,
@@ -109,7 +109,7 @@ func batchDuplicate(o model.Op) string {
 var c03Bases = [][]model.Op{
 	{},
 	{{Op: "AddGraph", Graph: "g1"}},
-	{{Op: "AddGraph", Graph: "g1"}, {Op: "AddGraph", Graph: "g2"},
+	{{Op: "AddGraph", Graph: "g1"}, {Op: "AddGraph", Graph: "g1b"},
 		{Op: "AddVertex", Graph: "g1", Elems: []*model.Elem{mv("a", "P", M{"x": 1.0}), mv("b", "Q", nil)}},
 		{Op: "AddEdge", Graph: "g1", Elems: []*model.Elem{me("e1", "r", "a", "b", nil)}},
 		{Op: "AddEdge", Graph: "g1", Elems: []*model.Elem{me("e2", "s", "b", "a", M{"w": 1.0})}}},
